@@ -64,7 +64,20 @@ Lemma interp_ECall : forall f a, interp md GE G (ECall f a) =
    Ok (flat_map (fun c => repeat (snd c) (call_ways (fst c) al)) (funs_of bs))).
 Proof. reflexivity. Qed.
 Lemma interp_EBin : forall i op l r, interp md GE G (EBin i op l r) =
-  (li <- interp md GE G l ;; ri <- interp md GE G r ;; Ok (op_interps G op li ri)).
+  (if is_aggregate r then
+     if is_aggregate l then Ok [] else
+     li <- interp md GE G l ;;
+     match agg_type G op li with
+     | Some t => root md GE G t r ;;; Ok [op_result op t]
+     | None => Ok []
+     end
+   else if is_aggregate l then
+     ri <- interp md GE G r ;;
+     match agg_type G op ri with
+     | Some t => root md GE G t l ;;; Ok [op_result op t]
+     | None => Ok []
+     end
+   else li <- interp md GE G l ;; ri <- interp md GE G r ;; Ok (op_interps G op li ri)).
 Proof. reflexivity. Qed.
 Lemma interp_ENot : forall i e, interp md GE G (ENot i e) =
   (li <- interp md GE G e ;; Ok (filter (fun t => match t with SBool | SBit => true | _ => false end) li)).
